@@ -11,7 +11,7 @@ RULE = ('Hypothesis-generated abstract netlists (33 primitives through all docum
         'DFF Q/QN, latches, open input pins, open outputs, both port styles) x 0/1 stimuli x batch sizes 1..70 x 1..4 cycles '
         'x {c_reuse} x {strip_forks}; oracle = own gate-by-gate evaluator. non-trivial: depth >= 3 and at least one of '
         '{reconvergent fan-out, state element feeding logic, open pin, batch size not a multiple of 8, >= 2 cycles}; '
-        'distinct by SHA-1 of the case.')
+        'distinct by SHA-1 of the case. Part big: a few deterministic chains with more than 2^16 nodes and lines (index arithmetic).')
 ASSUMPTIONS = ['numba absent: the njit 2-valued loop runs as plain Python (same source)',
                'reference evaluator vk/refmodel.py written from the primitive names, independent of sim.py LUTs']
 
@@ -112,4 +112,53 @@ def prop(case):
     return Obs(nontrivial, labels, checks=len(nl['po']) + len(nl['st']))
 
 
-PARTS = [Part('sim2v', prop, strategy=cases, quick=(8, 500), thorough=(16, 25000))]
+def enum_big(tier):
+    """a few circuits with more than 2^16 lines and nodes (index arithmetic in narrow integer types would wrap)"""
+    yield dict(n=70000, c_reuse=False, strip_forks=False, sims=3)
+    yield dict(n=70000, c_reuse=True, strip_forks=True, sims=9)
+    if tier == 'thorough':
+        yield dict(n=140000, c_reuse=True, strip_forks=False, sims=1)
+        yield dict(n=33000, c_reuse=False, strip_forks=True, sims=17)
+
+
+def prop_big(case):
+    from kyupy.circuit import Circuit, Node, Line
+    from kyupy.logic_sim import LogicSim
+    n, sims = case['n'], case['sims']
+    mask = (1 << sims) - 1
+    c = Circuit('big')
+    a = Node(c, 'a', 'input'); b_ = Node(c, 'b', 'input')
+    c.io_nodes.append(a); c.io_nodes.append(b_)
+    fa = Node(c, 'a'); Line(c, a, fa)
+    prev = Node(c, 'b'); Line(c, b_, prev)          # fork carrying the running signal
+    kinds = ['inv', 'xor2', 'buf', 'nand2', 'xnor2']
+    va, vb = 0x2b5 & mask, 0x1c9 & mask
+    val = vb
+    for k in range(n // 2):                          # every stage: one cell + one fork = 2 nodes, 2-3 lines
+        kind = kinds[k % len(kinds)]
+        g = Node(c, f'g{k}', kind)
+        Line(c, prev, g)
+        if kind in ('xor2', 'nand2', 'xnor2'):
+            Line(c, fa, g)
+        f = Node(c, f'n{k}')
+        Line(c, g, f)
+        prev = f
+        val = {'inv': ~val, 'buf': val, 'xor2': val ^ va, 'nand2': ~(val & va), 'xnor2': ~(val ^ va)}[kind] & mask
+    o = Node(c, 'o', 'output'); c.io_nodes.append(o); Line(c, prev, o)
+    sim = LogicSim(c, sims, m=2, c_reuse=case['c_reuse'], strip_forks=case['strip_forks'])
+    stim = np.zeros((3, sims), dtype=np.uint8)
+    stim[0] = [3 * ((va >> l) & 1) for l in range(sims)]
+    stim[1] = [3 * ((vb >> l) & 1) for l in range(sims)]
+    sim.s[0] = pack_bp(stim)
+    sim.s_to_c(); sim.c_prop(); sim.c_to_s()
+    res = unpack_bp(sim.s[1], sims)[2]
+    exp = [3 * ((val >> l) & 1) for l in range(sims)]
+    if [int(x) for x in res] != exp:
+        raise Violation(f'chain of {n // 2} cells ({len(c.nodes)} nodes, {len(c.lines)} lines): output {res.tolist()}, expected {exp}')
+    if len(list(c.topological_order())) != len(c.nodes):
+        raise Violation('topological_order incomplete on the large circuit')
+    return Obs(True, [f'lines>{2 ** 16}' if len(c.lines) > 2 ** 16 else 'lines>2^15'], checks=1)
+
+
+PARTS = [Part('sim2v', prop, strategy=cases, quick=(8, 500), thorough=(16, 25000)),
+         Part('big', prop_big, enumerate=enum_big, quick=(2, 0), thorough=(4, 0))]
